@@ -234,6 +234,7 @@ type World struct {
 	TS       *tState
 	CS       *cState
 	CL       *closeState
+	Ref      *World // C12: the same workload under the reference configuration
 	Puppets  []*puppetConn
 	PuppetFlags map[uint64]uint32
 	PuppetLis *Listener
